@@ -8,7 +8,7 @@ import re
 
 from engine.codec import Codec
 from engine.expr import Ex, norm, show, walk, alts
-from engine.intervals import Intervals, dominating_facts, ty_range
+from engine.intervals import Intervals, dominating_facts, ty_range, argtys_of
 from engine.mir import AnchorLost, callee_matches
 from engine.panics import const_return_summaries, leaf_sig
 from engine.query import aggregates, calls_matching, where, find_switch_on, enum_variants
@@ -31,6 +31,17 @@ REVIEWED_NARROW = {
 }
 
 
+def core(e):
+    """strip value-preserving wrappers (checked conversions and their error mapping, Ok payload, casts)"""
+    while True:
+        if e[0] in ("ok", "cast"):
+            e = e[1]
+        elif e[0] == "call" and re.search(r"Result::<T, E>::(map_err|or_else)$|TryInto::try_into$|TryFrom::try_from$|convert::(From|Into)::", e[1]) and e[2]:
+            e = e[2][0]
+        else:
+            return e
+
+
 def sib_rules(ctx, facts, rep):
     rule = "C02-SIB"
     spec = ctx.spec("appnote.json")
@@ -50,7 +61,7 @@ def sib_rules(ctx, facts, rep):
                     break
                 head.append(e)
             for n, e in zip(names, head):
-                out.setdefault(n, set()).add(show(e["expr"]))
+                out.setdefault(n, set()).add(show(core(e["expr"])))
             was = [e for e in evs if e["kind"] == "wa"]
             if was:
                 out.setdefault("name", set()).add(show(was[0]["expr"]))
@@ -75,7 +86,7 @@ def sib_rules(ctx, facts, rep):
                 found = True
                 consts = [x[2] for x in walk(e["expr"]) if x[0] in ("const", "named") and isinstance(x[2], int)]
                 good_off = consts == [off]
-                wv = re.sub(r"Option::unwrap\(slice::last_mut\(self\.files\)\)", "file", show(evs[i + 1]["expr"]))
+                wv = re.sub(r"Option::unwrap\(slice::last_mut\(self\.files\)\)", "file", show(core(evs[i + 1]["expr"])))
                 good_val = wv in lt.get("extra_len", set()) and evs[i + 1]["width"] == 2
                 ok &= rep.check(good_off and good_val, rule, "extra-len-repatch", where(ee, e["span"]),
                                 "end_extra_data rewrites the local extra-length field at +%d with the header writer's own expression" % off,
@@ -212,7 +223,7 @@ def narrow_rules(ctx, facts, rep):
     def check_expr(f, ex, e, bb, span, what):
         nonlocal ok, n
         fs = [x for x in dominating_facts(f, ex, bb) if x[0] != "truth"]
-        iv = Intervals(summaries, fs)
+        iv = Intervals(summaries, fs, argtys_of(f))
         for x in walk(e):
             if x[0] != "cast":
                 continue
@@ -301,6 +312,11 @@ def offs_rules(ctx, facts, rep):
     com = norm(exf.operand(flds["zip_file_comment"], (bi, si)))
     ffb = calls_matching(fz, ZW + "finish_file$")
     cdh = calls_matching(fz, r"^write::write_central_directory_header$")
+    if not cdh:
+        # the per-entry loop may be an iterator adaptor taking a closure that writes the record
+        for c_ in facts.closures_of(fz):
+            if calls_matching(c_, r"^write::write_central_directory_header$"):
+                cdh = [(b_, t_) for b_, t_ in fz.calls() if callee_matches(t_, r"Iterator::(try_for_each|for_each|try_fold|fold|map)$")]
     ps = [x[4] for x in walk(off) if x[0] == "call" and x[1].endswith("stream_position")]
     good = len(ps) == 1 and bool(ffb) and bool(cdh) and fz.dominates(ffb[0][0], ps[0]) and fz.dominates(ps[0], cdh[0][0])
     ok &= rep.check(good, rule, "central_start", where(fz, s["span"]), "directory offset = position after closing the last entry, before the first central record",
@@ -314,7 +330,7 @@ def offs_rules(ctx, facts, rep):
     good = ".comment" in tokens(com)
     ok &= rep.check(good, rule, "comment", where(fz, s["span"]), "EOCD comment = the writer's comment", "EOCD comment derives from %s" % show(com))
     # every central record is written from self.files, in order
-    it = calls_matching(fz, r"slice::<impl \[T\]>::iter$")
+    it = calls_matching(fz, r"slice::<impl \[T\]>::iter$|IntoIterator::into_iter$")
     good = bool(it) and ".files" in tokens(norm(exf.operand(it[0][1]["args"][0], (it[0][0], None))))
     ok &= rep.check(good, rule, "central-loop", where(fz, fz.span), "one central record per entry of self.files, in order", "central records are not produced by iterating self.files")
     # the oversize guards of F9 (fail before writing)
